@@ -107,6 +107,12 @@ func overlayGen(r *rand.Rand, n int, tier string, emit func(Case)) {
 		case 2:
 			mk = 2
 		}
+		if i%10 == 9 {
+			// laws on large lattices (ordinates up to 2^10): overlapping geometries of every type
+			big := &lgen{r: r, N: []int{16, 64, 256, 1024}[r.Intn(4)]}
+			emit(Case{"op": "laws", "wa": big.any(5).AsText(), "wb": big.any(5).AsText(), "N": big.N})
+			continue
+		}
 		var c Case
 		switch k := r.Intn(12); {
 		case k == 0:
@@ -150,6 +156,7 @@ func overlayGen(r *rand.Rand, n int, tier string, emit func(Case)) {
 func overlayOnPanic(c Case) Event {
 	_, gp := mapOf(c)
 	return Event{"kind": "op", "op": "union", "a": []*flat{}, "b": []*flat{}, "res": newFlat(), "rtype": "", "rvalid": false, "err": "", "gp": gp,
+		"areas": []int{}, "eq": []bool{}, "valid": false,
 		"dcel": Event{"verts": []Event{}, "edges": []Event{}, "faces": []Event{}}}
 }
 
@@ -194,7 +201,67 @@ func dcelEvent(a, b geom.Geometry) Event {
 	return Event{"verts": verts, "edges": edges, "faces": faces}
 }
 
+// lawsEvent: the Boolean-algebra laws on geometries with ordinates up to 2^10 (results are opaque to the specification).
+func lawsEvent(c Case) Event {
+	ev := overlayOnPanic(c)
+	ev["kind"] = "laws"
+	a, b := mustWKT(c.str("wa")), mustWKT(c.str("wb"))
+	var firstErr error
+	valid := true
+	op := func(f func(x, y geom.Geometry) (geom.Geometry, error), x, y geom.Geometry) geom.Geometry {
+		r, err := f(x, y)
+		if err != nil && firstErr == nil {
+			firstErr = err
+		}
+		if err == nil && r.Validate() != nil {
+			valid = false
+		}
+		return r
+	}
+	aub, bua := op(geom.Union, a, b), op(geom.Union, b, a)
+	anb, bna := op(geom.Intersection, a, b), op(geom.Intersection, b, a)
+	amb, bma := op(geom.Difference, a, b), op(geom.Difference, b, a)
+	axb, bxa := op(geom.SymmetricDifference, a, b), op(geom.SymmetricDifference, b, a)
+	// re-composing results feeds float crossing points back in: those inputs are near-degenerate by construction
+	// (a computed crossing point lies within an ulp of the edge it came from), which the property excludes - so an
+	// error or an Equals verdict on them is not judged, only the area of a result that was produced
+	rec, recErr := geom.Union(amb, anb)
+	aua := op(geom.Union, a, a)
+	uu, err := geom.UnaryUnion(a)
+	if err != nil && firstErr == nil {
+		firstErr = err
+	}
+	// the area of an operand's point set (members of a collection may overlap, and Area() adds member areas up)
+	ub, err := geom.UnaryUnion(b)
+	if err != nil && firstErr == nil {
+		firstErr = err
+	}
+	if firstErr != nil {
+		ev["err"] = errStr(firstErr)
+		return ev
+	}
+	ar := []int{}
+	if recErr != nil {
+		rec = a // not judged
+	}
+	for _, g := range []geom.Geometry{uu, ub, aub, bua, anb, bna, amb, bma, axb, bxa, rec, aua} {
+		ar = append(ar, roundInt(g.Area()*4))
+	}
+	eq := func(x, y geom.Geometry) bool {
+		v, err := geom.Equals(x, y)
+		return err == nil && v
+	}
+	ev["areas"] = ar
+	ev["eq"] = []bool{eq(aub, bua), eq(anb, bna), eq(axb, bxa), eq(aua, uu)}
+	ev["valid"] = valid
+	ev["nt"] = !anb.IsEmpty()
+	return ev
+}
+
 func overlayExec(c Case) Event {
+	if c.str("op") == "laws" {
+		return lawsEvent(c)
+	}
 	ev := overlayOnPanic(c)
 	f, _ := mapOf(c)
 	inv := invOf(c)
